@@ -12,7 +12,7 @@ import (
 
 func init() {
 	register("C15", false,
-		"Structural necessary conditions decided from source: (C15-buffer) wherever package telnet creates a bufio.Reader over a connection, reads login lines through it and then returns that connection, the reader travels with the returned value (it is stored in a field of the returned struct) and the returned type declares its own Read that reads through that field - so bytes the reader buffered beyond the last login line (payload coalesced with it) are not lost, whatever the segmentation; (C15-deadline) in every function of the package that takes a context and reads from a connection it dialled, each blocking read is dominated by the registration of a watcher derived from that context which unblocks the read (context.AfterFunc or a goroutine selecting on ctx.Done() that closes the connection or sets a deadline on it, or a deadline taken from ctx.Deadline()), the watcher is not stopped before the last read, and the timeout-based entry points derive their context from context.WithTimeout/WithDeadline with the caller's timeout - so a silent or stalling server cannot block the dial beyond the context. NOT decided: that login succeeds for every callsign/password, prompt recognition, the write side of the login.",
+		"Structural necessary conditions decided from source: (C15-buffer) wherever package telnet creates a bufio.Reader over a connection, reads login lines through it - itself or in same-package helpers that are handed the reader, or that build the reader over a connection they are given and hand it back - and then returns that connection, the reader travels with the returned value (it is stored in a field of the returned struct) and the returned type declares its own Read that reads through that field - so bytes the reader buffered beyond the last login line (payload coalesced with it) are not lost, whatever the segmentation; (C15-deadline) in every function of the package that takes a context and reads from a connection it dialled, each blocking read (or call of a helper that does the reading on the reader / connection it is handed) is dominated by the registration of a watcher derived from that context which unblocks the read (context.AfterFunc or a goroutine selecting on ctx.Done() that closes the connection or sets a deadline on it, or a deadline taken from ctx.Deadline()), the watcher is not stopped before the last read, and the timeout-based entry points derive their context from context.WithTimeout/WithDeadline with the caller's timeout - so a silent or stalling server cannot block the dial beyond the context. NOT decided: that login succeeds for every callsign/password, prompt recognition, the write side of the login.",
 		checkC15)
 }
 
@@ -27,115 +27,143 @@ func checkC15(c *Ctx, r *Report) {
 	// ---- C15-buffer
 	r.Rule("C15-buffer", 2, "login readers travel with the connection")
 	nReaders := 0
-	for _, fn := range c.SrcFuncs(pkg) {
+	// examine: fn holds reader rd, which has read from connection under. If fn hands the connection
+	// back, every such return gets an obligation; reports whether it does.
+	var examine func(fn *ssa.Function, rd, under ssa.Value, made string, depth int) bool
+	examine = func(fn *ssa.Function, rd, under ssa.Value, made string, depth int) bool {
 		where := fnName(fn)
+		isRd := map[ssa.Value]bool{}
+		for _, a := range g9Aliases(rd) {
+			isRd[a] = true
+		}
+		// does the function hand the underlying connection back?
+		type retInfo struct {
+			ret   *ssa.Return
+			alloc *ssa.Alloc
+		}
+		var rets []retInfo
+		for _, ret := range returnsOf(fn) {
+			if len(ret.Results) == 0 || isNilConst(resOf(ret, 0)) {
+				continue
+			}
+			v := unwrap(resOf(ret, 0))
+			if sameSlotValue(v, under) {
+				rets = append(rets, retInfo{ret, nil}) // bare connection returned
+				continue
+			}
+			if al, ok := v.(*ssa.Alloc); ok {
+				// struct that embeds / holds the connection
+				holds := false
+				for _, ref := range *al.Referrers() {
+					if fa, ok := ref.(*ssa.FieldAddr); ok {
+						for _, r2 := range *fa.Referrers() {
+							if st, ok := r2.(*ssa.Store); ok && sameSlotValue(unwrap(st.Val), under) {
+								holds = true
+							}
+						}
+					}
+				}
+				if holds {
+					rets = append(rets, retInfo{ret, al})
+				}
+			}
+		}
+		if len(rets) == 0 {
+			// the connection does not leave the function. A helper that builds the reader over a
+			// connection it was given and hands the reader back: the same question is put to every
+			// caller, with the connection and the reader bound to the call (ip_g9.go)
+			pi := paramIndex(fn, under)
+			ri := -1
+			for _, ret := range returnsOf(fn) {
+				for i := range ret.Results {
+					if isRd[resOf(ret, i)] {
+						ri = i
+					}
+				}
+			}
+			if pi < 0 || ri < 0 || depth >= g9MaxDepth {
+				return false
+			}
+			leaves := false
+			for _, site := range c.liftSites(fn) {
+				if rdAt := g9ResultAt(site, ri, fn.Signature.Results().Len()); rdAt != nil && pi < len(site.Call.Args) {
+					if examine(site.Parent(), rdAt, unwrap(site.Call.Args[pi]), c.exprAt(site.Parent(), site.Pos()), depth+1) {
+						leaves = true
+					}
+				}
+			}
+			return leaves
+		}
+		for _, ri := range rets {
+			o := r.Add("C15-buffer", where, "return of the connection read through "+made, c.pos(ri.ret.Pos()))
+			if isErrorExit(ri.ret) {
+				o.OK("error exit: the connection is handed back together with an error")
+				continue
+			}
+			if ri.alloc == nil {
+				o.Bad("the bare connection is returned while a private bufio.Reader has read from it: bytes it buffered beyond the login are lost")
+				continue
+			}
+			// reader stored into the returned struct
+			field := -1
+			for _, ref := range *ri.alloc.Referrers() {
+				if fa, ok := ref.(*ssa.FieldAddr); ok {
+					for _, r2 := range *fa.Referrers() {
+						if st, ok := r2.(*ssa.Store); ok && isRd[st.Val] && instrDominates(st, ri.ret) {
+							field = fa.Field
+						}
+					}
+				}
+			}
+			if field < 0 {
+				o.Bad("the login reader is dropped: it is not stored in the returned value, so bytes it buffered beyond the last login line (payload coalesced with it) are lost")
+				continue
+			}
+			// the returned type reads through that field
+			st := ri.alloc.Type().Underlying().(*types.Pointer).Elem()
+			fname := fieldName(types.NewPointer(st), field)
+			tn := namedOf(st)
+			var readFn *ssa.Function
+			if tn != nil {
+				for _, t := range []types.Type{types.NewPointer(st), st} {
+					if sel := c.Prog.MethodSets.MethodSet(t).Lookup(tn.Obj().Pkg(), "Read"); sel != nil {
+						if f := c.Prog.MethodValue(sel); f != nil && f.Synthetic == "" {
+							readFn = f
+						}
+					}
+				}
+			}
+			through := false
+			if readFn != nil {
+				for _, rc := range allCalls(readFn) {
+					if strings.HasPrefix(callName(rc.Common()), "bufio.Reader.Read") && strings.HasSuffix(pathOf(rc.Common().Args[0]), "."+fname) {
+						through = true
+					}
+				}
+			}
+			switch {
+			case readFn == nil:
+				o.Bad("the reader is stored in field %s but the returned type has no Read of its own: reads go to the embedded connection and skip the buffered bytes", fname)
+			case !through:
+				o.Bad("the returned type's Read does not read through field %s", fname)
+			default:
+				o.OK("the reader is stored in field %s of the returned value and %s reads through it", fname, fnName(readFn))
+			}
+		}
+		return true
+	}
+	for _, fn := range c.SrcFuncs(pkg) {
 		for _, ci := range callsTo(fn, false, "bufio.NewReader", "bufio.NewReaderSize") {
 			rd := ci.Value()
 			if rd == nil {
 				continue
 			}
-			// is it read from?
-			read := false
-			for _, ref := range *rd.Referrers() {
-				if call, ok := ref.(ssa.CallInstruction); ok && strings.HasPrefix(callName(call.Common()), "bufio.Reader.Read") && call.Common().Args[0] == rd {
-					read = true
-				}
-			}
-			if !read {
+			// is it read from - here or in a helper it is handed to (ip_g9.go)?
+			if !g9ReaderRead(fn, rd) {
 				continue
 			}
-			under := unwrap(ci.Common().Args[0])
-			// does the function hand the underlying connection back?
-			type retInfo struct {
-				ret   *ssa.Return
-				alloc *ssa.Alloc
-			}
-			var rets []retInfo
-			for _, ret := range returnsOf(fn) {
-				if len(ret.Results) == 0 || isNilConst(resOf(ret, 0)) {
-					continue
-				}
-				v := unwrap(resOf(ret, 0))
-				if sameSlotValue(v, under) {
-					rets = append(rets, retInfo{ret, nil}) // bare connection returned
-					continue
-				}
-				if al, ok := v.(*ssa.Alloc); ok {
-					// struct that embeds / holds the connection
-					holds := false
-					for _, ref := range *al.Referrers() {
-						if fa, ok := ref.(*ssa.FieldAddr); ok {
-							for _, r2 := range *fa.Referrers() {
-								if st, ok := r2.(*ssa.Store); ok && sameSlotValue(unwrap(st.Val), under) {
-									holds = true
-								}
-							}
-						}
-					}
-					if holds {
-						rets = append(rets, retInfo{ret, al})
-					}
-				}
-			}
-			if len(rets) == 0 {
-				continue // the connection does not leave the function
-			}
-			nReaders++
-			for _, ri := range rets {
-				o := r.Add("C15-buffer", where, "return of the connection read through "+c.exprAt(fn, ci.Pos()), c.pos(ri.ret.Pos()))
-				if isErrorExit(ri.ret) {
-					o.OK("error exit: the connection is handed back together with an error")
-					continue
-				}
-				if ri.alloc == nil {
-					o.Bad("the bare connection is returned while a private bufio.Reader has read from it: bytes it buffered beyond the login are lost")
-					continue
-				}
-				// reader stored into the returned struct
-				field := -1
-				for _, ref := range *ri.alloc.Referrers() {
-					if fa, ok := ref.(*ssa.FieldAddr); ok {
-						for _, r2 := range *fa.Referrers() {
-							if st, ok := r2.(*ssa.Store); ok && st.Val == rd && instrDominates(st, ri.ret) {
-								field = fa.Field
-							}
-						}
-					}
-				}
-				if field < 0 {
-					o.Bad("the login reader is dropped: it is not stored in the returned value, so bytes it buffered beyond the last login line (payload coalesced with it) are lost")
-					continue
-				}
-				// the returned type reads through that field
-				st := ri.alloc.Type().Underlying().(*types.Pointer).Elem()
-				fname := fieldName(types.NewPointer(st), field)
-				tn := namedOf(st)
-				var readFn *ssa.Function
-				if tn != nil {
-					for _, t := range []types.Type{types.NewPointer(st), st} {
-						if sel := c.Prog.MethodSets.MethodSet(t).Lookup(tn.Obj().Pkg(), "Read"); sel != nil {
-							if f := c.Prog.MethodValue(sel); f != nil && f.Synthetic == "" {
-								readFn = f
-							}
-						}
-					}
-				}
-				through := false
-				if readFn != nil {
-					for _, rc := range allCalls(readFn) {
-						if strings.HasPrefix(callName(rc.Common()), "bufio.Reader.Read") && strings.HasSuffix(pathOf(rc.Common().Args[0]), "."+fname) {
-							through = true
-						}
-					}
-				}
-				switch {
-				case readFn == nil:
-					o.Bad("the reader is stored in field %s but the returned type has no Read of its own: reads go to the embedded connection and skip the buffered bytes", fname)
-				case !through:
-					o.Bad("the returned type's Read does not read through field %s", fname)
-				default:
-					o.OK("the reader is stored in field %s of the returned value and %s reads through it", fname, fnName(readFn))
-				}
+			if examine(fn, rd, unwrap(ci.Common().Args[0]), c.exprAt(fn, ci.Pos()), 0) {
+				nReaders++
 			}
 		}
 	}
@@ -203,6 +231,47 @@ func checkC15(c *Ctx, r *Report) {
 			}
 			if ci.Common().IsInvoke() && ci.Common().Method.Name() == "Read" && isConn(ci.Common().Value) {
 				reads = append(reads, ci)
+			}
+		}
+		// reads made by a helper that is handed the reader over the dialled connection: the call of
+		// the helper is where this function blocks (ip_g9.go)
+		isRead := map[ssa.CallInstruction]bool{}
+		for _, rd := range reads {
+			isRead[rd] = true
+		}
+		for _, mk := range callsTo(fn, false, "bufio.NewReader", "bufio.NewReaderSize") {
+			if mk.Value() == nil || !isConn(mk.Common().Args[0]) {
+				continue
+			}
+			g9ReaderUses(fn, mk.Value(), nil, func(u g9ReaderUse) {
+				n := callName(u.call.Common())
+				if !u.opaque && !strings.HasPrefix(n, "bufio.Reader.Read") && n != "bufio.Reader.Peek" {
+					return
+				}
+				at := u.call
+				if len(u.chain) > 0 {
+					at = u.chain[0]
+				}
+				if !isRead[at] {
+					isRead[at] = true
+					reads = append(reads, at)
+				}
+			})
+		}
+		// ... and by a helper that is handed the dialled connection itself and reads from it
+		for _, ci := range allCalls(fn) {
+			call, ok := ci.(*ssa.Call)
+			if !ok || isRead[ci] {
+				continue
+			}
+			if h := helperCallee(fn, &call.Call); h != nil {
+				for i, a := range call.Call.Args {
+					if isConn(a) && g9ReadsConn(h, h.Params[i], 0) {
+						isRead[ci] = true
+						reads = append(reads, ci)
+						break
+					}
+				}
 			}
 		}
 		// watchers
@@ -285,6 +354,11 @@ func checkC15(c *Ctx, r *Report) {
 				if w.stop != nil {
 					for _, ref := range *w.stop.Referrers() {
 						if call, ok := ref.(*ssa.Call); ok && call.Call.Value == w.stop && instrReaches(call, rd) {
+							stopped = true
+						}
+						// the stop function handed to a callee that runs before or is the read: it may
+						// be called there (not followed: undecided)
+						if call, ok := ref.(*ssa.Call); ok && call.Call.Value != w.stop && (ssa.CallInstruction(call) == rd || instrReaches(call, rd)) {
 							stopped = true
 						}
 					}
@@ -464,19 +538,38 @@ func loginReadsRule(c *Ctx, r *Report, rule string) {
 				continue
 			}
 			nReaders++
-			for _, ci := range allCalls(fn) {
-				if len(ci.Common().Args) == 0 || ci.Common().Args[0] != rd || ci == mk {
-					continue
+			// every method call on the reader, in this function or in a helper the reader is handed to
+			// (parameters bound to the arguments of the call: ip_g9.go)
+			type useKey struct {
+				call ssa.CallInstruction
+				arg  ssa.Value
+			}
+			done := map[useKey]bool{}
+			visit := func(u g9ReaderUse) {
+				ci := u.call
+				if ci == mk {
+					return
 				}
-				name := callName(ci.Common())
-				if !strings.HasPrefix(name, "bufio.Reader.") {
-					continue
+				if u.opaque {
+					if !done[useKey{ci, nil}] {
+						done[useKey{ci, nil}] = true
+						r.Add(rule, fnName(u.fn), "login reader: "+c.exprAt(u.fn, ci.Pos()), c.pos(ci.Pos())).Bad("the login reader is handed to a callee that is not followed (%s): it may consume bytes beyond the login lines", callName(ci.Common()))
+					}
+					return
 				}
-				m := strings.TrimPrefix(name, "bufio.Reader.")
-				o := r.Add(rule, fnName(fn), "login reader: "+c.exprAt(fn, ci.Pos()), c.pos(ci.Pos()))
+				m := strings.TrimPrefix(callName(ci.Common()), "bufio.Reader.")
+				var delim ssa.Value
+				if len(ci.Common().Args) > 1 {
+					delim = g9Up(ci.Common().Args[1], u.chain)
+				}
+				if done[useKey{ci, delim}] {
+					return
+				}
+				done[useKey{ci, delim}] = true
+				o := r.Add(rule, fnName(u.fn), "login reader: "+c.exprAt(u.fn, ci.Pos()), c.pos(ci.Pos()))
 				switch m {
 				case "ReadString", "ReadBytes", "ReadSlice":
-					if d, ok := constInt(ci.Common().Args[1]); ok && d == 13 {
+					if d, ok := constInt(delim); ok && d == 13 {
 						o.OK("reads one CR-terminated line")
 					} else {
 						o.Bad("a login line is read up to a delimiter other than CR: the two sides of the login (and every Winlink telnet peer) end lines with CR only, so the read runs into the payload or blocks")
@@ -485,6 +578,20 @@ func loginReadsRule(c *Ctx, r *Report, rule string) {
 					o.OK("does not consume")
 				default:
 					o.Bad("%s consumes bytes beyond the login lines from the reader that is handed over with the connection: payload that arrived in the same segment as the login (e.g. a first byte 0x0A) is lost", m)
+				}
+			}
+			g9ReaderUses(fn, rd, nil, visit)
+			// a helper that hands the reader back: what its callers do with it counts as well
+			for _, ret := range returnsOf(fn) {
+				for i := range ret.Results {
+					if resOf(ret, i) != rd {
+						continue
+					}
+					for _, site := range c.liftSites(fn) {
+						if at := g9ResultAt(site, i, fn.Signature.Results().Len()); at != nil {
+							g9ReaderUses(site.Parent(), at, nil, visit)
+						}
+					}
 				}
 			}
 		}
